@@ -328,7 +328,7 @@ def run_case(ctx, h, case, root):
     if "unwind" in case or "unwind" in h:
         cmd += ["--unwind", str(case.get("unwind", h.get("unwind")))]
     cmd += h.get("cbmc_flags", []) + case.get("cbmc_flags", [])
-    cap = int(os.environ.get("VF_CAP", 0)) or case.get("cap_s", h.get("cap_s", 1200 if ctx.tier == "quick" else 3600))
+    cap = int(os.environ.get("VF_CAP", 0)) or case.get("cap_s", h.get("cap_s", 1200 if ctx.tier == "quick" else 7200))
     mem = case.get("mem_gb", h.get("mem_gb", 12))
     outp = os.path.join(wd, "out.json")
     rc, o, e, dt = run(cmd, timeout=cap, mem_gb=mem, stdout_path=outp)
